@@ -554,5 +554,9 @@ def _run(rep, pid, tier):
     return rep.finish()
 
 
+
+def replay(path):
+    return vlib.generic_replay(path, constcheck.harness, "constdriver")
+
 if __name__ == "__main__":
     sys.exit(run(sys.argv[1] if len(sys.argv) > 1 else "C17", sys.argv[2] if len(sys.argv) > 2 else "quick"))
